@@ -34,6 +34,10 @@ impl V {
     pub fn k(&self) -> u8 {
         self.0 % 3
     }
+    /// the single consistent PARTIAL key of C02's partial slice: class 2 is NaN-like
+    pub fn kp(&self) -> Pv {
+        Pv(self.0 % 3 + 1)
+    }
     pub fn raw(&self) -> u8 {
         self.0
     }
@@ -69,6 +73,13 @@ pub fn kby_eq(a: &V, b: &V) -> bool {
 }
 pub fn kby_hash<H: Hasher>(a: &V, state: &mut H) {
     a.k().hash(state);
+}
+// consistent partial versions (C02, subsets of {PartialOrd, PartialEq})
+pub fn pby_partial_ord(a: &V, b: &V) -> Option<Ordering> {
+    a.kp().partial_cmp(&b.kp())
+}
+pub fn pby_eq(a: &V, b: &V) -> bool {
+    a.kp() == b.kp()
 }
 
 // ------------------------------------------------------------------------------------
